@@ -273,6 +273,10 @@ def shards(tier, seed):
     for n in (6, 7, 8) if tier == "quick" else (6, 7, 8, 9, 10, 11):
         for scale in (0.05, 0.5):
             sh.append(("datacov", (n, "GaussianCov", 3, scale), 0, 2 ** n))
+    # very long single cases (block boundaries of a chunked implementation fall inside the data)
+    for n in (1200,) if tier == "quick" else (1200, 2400):
+        for cost, msl, scale in (("L2", 5, 1.0), ("GaussianVar", 10, 2.0)):
+            sh.append(("xlong", (n, cost, msl, scale), 0, 10 ** 9 + 1))
     # medium-length series: all placements of <= 2 (3) changes, larger min_segment_length
     for n in (12, 16, 20) if tier == "quick" else (12, 16, 20, 24, 32):
         for cost, msl, scale in (("L2", 1, 1.0), ("L2", 4, 0.5), ("L2", 5, 0.05), ("GaussianVar", 4, 0.5), ("GaussianVar", 6, 0.2)):
@@ -331,6 +335,9 @@ def run_shard(shard):
         n, cost, msl, scale = cfg
         for xs in itertools.islice(itertools.product((0, 3), repeat=n), lo, hi):
             check_case(acc, {"mode": "data", "x": util.three_columns(xs), "cost": cost, "msl": msl, "scale": scale})
+    elif kind == "xlong":
+        n, cost, msl, scale = cfg
+        check_case(acc, {"mode": "data", "x": util.very_long_series(n), "cost": cost, "msl": msl, "scale": scale, "timeout": 600})
     elif kind == "datacov":
         n, cost, msl, scale = cfg
         for xs in itertools.islice(itertools.product((0, 3), repeat=n), lo, hi):
@@ -365,7 +372,7 @@ def check_case(acc, case):
     acc.ev()
     acc.sample(case)
     try:
-        with core.case_timer():
+        with core.case_timer(case.get("timeout", core.CASE_TIMEOUT_S)):
             if case["mode"] == "table":
                 n, msl, pen, p = case["n"], case["msl"], case["pen"], case["p"]
                 r = run_pelt_table(n, msl, pen, p, case["variant"], case["slacks"], case.get("slacks2"))
